@@ -77,8 +77,9 @@ impl<'a, TPrinter: Printer> FileExecutor<'a, TPrinter> {
         self.execution_engine.execute_joined_table(self.running.clone())?;
 
         'readers: for reader in std::mem::take(&mut self.readers).into_iter() {
-            // The limit holds for the input as a whole (all files), and LIMIT 0 reads nothing
-            if self.execution_engine.reached_limit() {
+            // The limit holds for the input as a whole (all files), and LIMIT 0 reads nothing; after an interrupt
+            // (e.g. while the last line of the previous file was processed) the next file is not touched either
+            if self.execution_engine.reached_limit() || !self.running.load(Ordering::SeqCst) {
                 break;
             }
 
